@@ -9,6 +9,7 @@ use std::collections::BTreeMap;
 use std::sync::atomic::{AtomicI64, AtomicU64, Ordering};
 use std::sync::Arc;
 use zarrs::array::{Array, ArrayChunkCacheExt, ChunkCacheDecodedLruChunkLimit, ChunkCacheEncodedLruChunkLimit};
+use zarrs::array_subset::ArraySubset;
 use zarrs::group::{Group, GroupBuilder};
 use zarrs::storage::byte_range::ByteRange;
 use zarrs::storage::{
@@ -18,11 +19,18 @@ use zarrs::storage::{
 
 /// fails the operation whose ordinal equals `fail_at` (1-based; 0 = never); counts operations
 /// and records the operations (kind + key) in the order in which they arrive
-pub struct FaultStore { inner: DynStore, count: AtomicU64, fail_at: AtomicI64, trace: std::sync::Mutex<Vec<(char, String)>> }
+pub struct FaultStore { inner: DynStore, count: AtomicU64, fail_at: AtomicI64, trace: std::sync::Mutex<Vec<(char, String)>>, failed: std::sync::Mutex<String> }
 impl FaultStore {
     fn tick(&self, kind: char, key: &str) -> Result<(), StorageError> {
+        let mut tr = self.trace.lock().unwrap();
         let n = self.count.fetch_add(1, Ordering::SeqCst) + 1;
-        self.trace.lock().unwrap().push((kind, key.to_string()));
+        if self.fail_at.load(Ordering::SeqCst) == n as i64 {
+            // the failing operation and the one before it on the same key, IN THIS RUN (per-chunk tasks arrive in any order)
+            let prev = tr.iter().rev().find(|(_, kk)| kk == key).map(|x| x.0).unwrap_or('-');
+            *self.failed.lock().unwrap() = format!("{}{}{}", prev, kind, key);
+        }
+        tr.push((kind, key.to_string()));
+        drop(tr);
         if self.fail_at.load(Ordering::SeqCst) == n as i64 { Err(StorageError::Other("injected fault".into())) } else { Ok(()) }
     }
     /// the operations since the last call: `g<key>` get / partial get, `s<key>` set, `e<key>` erase, `l<prefix>` list_dir, ...;
@@ -57,9 +65,9 @@ fn snapshot(s: &DynStore) -> Snap { s.list().unwrap().iter().map(|k| (k.as_str()
 fn restore(s: &DynStore, snap: &Snap) { s.erase_prefix(&StorePrefix::root()).unwrap(); for (k, v) in snap { s.set(&StoreKey::new(k.clone()).unwrap(), v.clone().into()).unwrap(); } }
 
 pub fn exec_op(ctx: &mut ArrCtx, verb: &str, m: &BTreeMap<String, String>, line: &str) -> String {
-    if verb != "fault_sweep" && verb != "fault_sweep_read" && verb != "fault_meta" { return crate::arr::exec_op(ctx, verb, m); }
+    if verb != "fault_sweep" && verb != "fault_sweep_pe" && verb != "fault_sweep_read" && verb != "fault_meta" { return crate::arr::exec_op(ctx, verb, m); }
     let base: DynStore = ctx.store.store.clone();
-    let fs = Arc::new(FaultStore { inner: base.clone(), count: AtomicU64::new(0), fail_at: AtomicI64::new(0), trace: std::sync::Mutex::new(vec![]) });
+    let fs = Arc::new(FaultStore { inner: base.clone(), count: AtomicU64::new(0), fail_at: AtomicI64::new(0), trace: std::sync::Mutex::new(vec![]), failed: std::sync::Mutex::new(String::new()) });
     let fsd: DynStore = fs.clone();
     let array = match Array::open(fsd.clone(), &ctx.path) { Ok(a) => Arc::new(a), Err(_) => return "err-open".into() };
     let mut opts = ctx.opts.clone();
@@ -69,7 +77,13 @@ pub fn exec_op(ctx: &mut ArrCtx, verb: &str, m: &BTreeMap<String, String>, line:
     let inner_verb = v.get(3).cloned().unwrap_or_default();
     let mk_ctx = |store: DynStore, array: Arc<Arr>| ArrCtx { store: crate::c08::StoreCtx { kind: "shared".into(), store, dir: None }, array, path: ctx.path.clone(), es: ctx.es, opts: opts.clone() };
     match verb {
-        "fault_sweep" => {
+        "fault_sweep" | "fault_sweep_pe" => {
+            // `fault_sweep_pe` (the sharding partial encoder, an experimental write path): the final state is compared as
+            // DECODED CONTENTS (an appended and a compacted shard hold the same chunk in different bytes), and `torn` is
+            // informational (the property's previous-or-intended clause is about the default whole-chunk path)
+            let pe = verb == "fault_sweep_pe";
+            let full = ArraySubset::new_with_shape(array.shape().to_vec());
+            let read_all = || -> String { std::panic::catch_unwind(std::panic::AssertUnwindSafe(|| array.retrieve_array_subset_opt(&full, &opts).map(|b| hex(&b.into_fixed().map(|x| x.into_owned()).unwrap_or_default())).unwrap_or("err".into()))).unwrap_or("panic".into()) };
             let snap0 = snapshot(&base);
             // fault-free run: count operations, record the intended final state
             fs.count.store(0, Ordering::SeqCst); fs.fail_at.store(0, Ordering::SeqCst); let _ = fs.take_trace(false);
@@ -77,12 +91,16 @@ pub fn exec_op(ctx: &mut ArrCtx, verb: &str, m: &BTreeMap<String, String>, line:
             let n = fs.count.load(Ordering::SeqCst);
             let t0 = fs.take_trace(true);
             let snap1 = snapshot(&base);
+            let val1 = if pe { read_all() } else { String::new() };
             let (mut ok_with_fault, mut panics, mut torn, mut retry_diff) = (0, 0, 0, 0);
+            let mut rdk: Vec<String> = vec![];
             for k in 1..=n {
                 restore(&base, &snap0);
+                let _ = fs.take_trace(false);
                 fs.count.store(0, Ordering::SeqCst); fs.fail_at.store(k as i64, Ordering::SeqCst);
                 let r = crate::arr::exec_op(&mut mk_ctx(fsd.clone(), array.clone()), &inner_verb, &mm);
                 if r == "panic" { panics += 1; } else if r != "err" { ok_with_fault += 1; }
+                let failed_op = fs.failed.lock().unwrap().clone();
                 // chunk-granular: every key holds its previous or its intended value
                 let now = snapshot(&base);
                 let keys: std::collections::BTreeSet<&String> = snap0.keys().chain(snap1.keys()).chain(now.keys()).collect();
@@ -90,9 +108,12 @@ pub fn exec_op(ctx: &mut ArrCtx, verb: &str, m: &BTreeMap<String, String>, line:
                 // retry without faults from the state the fault left
                 fs.fail_at.store(0, Ordering::SeqCst);
                 let _ = crate::arr::exec_op(&mut mk_ctx(fsd.clone(), array.clone()), &inner_verb, &mm);
-                if snapshot(&base) != snap1 { retry_diff += 1; }
+                if pe { fs.fail_at.store(0, Ordering::SeqCst); if read_all() != val1 { retry_diff += 1;
+                    rdk.push(failed_op.clone()); } }
+                else if snapshot(&base) != snap1 { retry_diff += 1; }
             }
             restore(&base, &snap1);
+            if pe { return format!("{} faults n={} ok_with_fault={} panics={} torn={} retry_diff={} rdk={} t={}", r0, n, ok_with_fault, panics, torn, retry_diff, if rdk.is_empty() { "-".to_string() } else { rdk.join(",") }, t0); }
             format!("{} faults n={} ok_with_fault={} panics={} torn={} retry_diff={} t={}", r0, n, ok_with_fault, panics, torn, retry_diff, t0)
         }
         "fault_sweep_read" => {
@@ -203,5 +224,36 @@ pub fn generate(tier: &str, seed: u64) -> Vec<String> {
         out.push("c20 op fault_meta".into());
         gen_full_reads(&mut rng, &cfg, &mut out, "c20");
     }
+    // The sharding partial encoder under faults (`experimental_partial_encoding`), for chains whose ONLY top-level codec is
+    // `sharding_indexed`: the encoder reads the index and the straddled inner chunks, then publishes the new index and the
+    // new inner chunks in ONE store call (or erases the shard), so a fault at any position leaves the shard untouched and a
+    // retry converges. (Chains with other top-level stages go through the default partial encoders, which erase before they
+    // rewrite and do not converge on the unchanged tree either - DESIGN 10.4 - and stay outside this family.)
+    let npe = if thorough { 400 } else { 40 };
+    let mut k = 0;
+    while k < npe {
+        let cfg = gen_cfg(&mut rng, Some(true));
+        if !shard_only(&cfg.chain_desc) { continue; }
+        k += 1;
+        out.push(cfg.cfg_line("c20", "memory", rng.chance(1, 4), true, ""));
+        for _ in 0..rng.range(1, 3) { out.push(format!("c20 {}", gen_write_op(&mut rng, &cfg))); }
+        for _ in 0..rng.range(3, 6) {
+            let w = gen_write_op(&mut rng, &cfg);
+            out.push(format!("c20 op fault_sweep_pe {}", &w[3..]));
+        }
+        out.push(format!("c20 op fault_sweep_read retrieve_array_subset r={}+{}", nl(&vec![0; cfg.shape.len()]), nl(&cfg.shape)));
+        gen_full_reads(&mut rng, &cfg, &mut out, "c20");
+    }
     out
+}
+
+/// the chain description is exactly one `shard[...]` stage (nothing before it, nothing after its closing bracket)
+fn shard_only(desc: &str) -> bool {
+    if !desc.starts_with("shard[") { return false; }
+    let mut depth = 0i32;
+    for (i, c) in desc.char_indices() {
+        if c == '[' { depth += 1; }
+        if c == ']' { depth -= 1; if depth == 0 { return i + 1 == desc.len(); } }
+    }
+    false
 }
